@@ -519,6 +519,7 @@ impl Storage {
     }
 
     /// the matched blocks must not empty
+    #[cfg(test)]
     pub fn add_matched_blocks(
         &self,
         start_number: u64,
@@ -540,6 +541,40 @@ impl Storage {
         self.db
             .put(key, &value)
             .expect("db put matched blocks should be ok");
+    }
+
+    /// Adds the matched blocks of a filtered batch and moves the min filtered block number to the
+    /// end of the batch atomically.
+    ///
+    /// If the process exits after the matched blocks are stored but before the number is moved,
+    /// the same batch is filtered again after the restart, and it overwrites the stored record
+    /// (maybe with other blocks, e.g. after a reorg) while the memory holds the recovered one.
+    pub fn add_matched_blocks_and_update_min_filtered_block_number(
+        &self,
+        start_number: u64,
+        blocks_count: u64,
+        // (block-hash, proved)
+        matched_blocks: Vec<(Byte32, bool)>,
+        min_filtered_block_number: BlockNumber,
+    ) {
+        assert!(!matched_blocks.is_empty());
+        let mut key = Key::Meta(MATCHED_FILTER_BLOCKS_KEY).into_vec();
+        key.extend(start_number.to_be_bytes());
+
+        let mut value = blocks_count.to_le_bytes().to_vec();
+        for (block_hash, proved) in matched_blocks {
+            value.extend(block_hash.as_slice());
+            value.push(u8::from(proved));
+        }
+        let mut batch = self.batch();
+        batch.put(key, &value).expect("batch put should be ok");
+        batch
+            .put(
+                Key::Meta(MIN_FILTERED_BLOCK_NUMBER).into_vec(),
+                min_filtered_block_number.to_le_bytes(),
+            )
+            .expect("batch put should be ok");
+        batch.commit().expect("batch commit should be ok");
     }
 
     #[allow(clippy::type_complexity)]
